@@ -1,8 +1,10 @@
 import RsslVerif.Model.Parse
+import RsslVerif.Model.ParseFull
 import RsslVerif.Driver.Util
 /-! Line-protocol front end of the C09 model: `C09.rt <ctx> <tree>` ↦ `<printed text> ==> <re-read tree | ERR:parse>`. -/
 namespace RsslVerif.Driver.C09
-open RsslVerif.Gen.FmtTables RsslVerif.Gen.ParseTables RsslVerif.Model.Format RsslVerif.Model.Parse
+open RsslVerif.Gen.FmtTables RsslVerif.Gen.ParseTables RsslVerif.Gen.SyntaxTables RsslVerif.Model.Format RsslVerif.Model.Parse
+open RsslVerif.Model.FormatFull RsslVerif.Model.ParseFull
 
 inductive SExp where
   | atom (s : String)
@@ -178,31 +180,289 @@ def gluedIntPeriod : List Piece → Bool
   | _ :: rest => gluedIntPeriod rest
   | [] => false
 
+/-! ## Full model: casts, sizeof, template arguments, types -/
+
+partial def SExp.show : SExp → String
+  | .atom a => a
+  | .list l => "(" ++ " ".intercalate (l.map SExp.show) ++ ")"
+
+def nameAtoms (n : String) : List SExp :=
+  ((if n.startsWith "::" then ["::"] else []) ++
+    ((if n.startsWith "::" then (n.drop 2).toString else n).splitOn "::")).map SExp.atom
+
+/-- request spelling of a modifier wrapper -/
+def modOfWrapper (s : String) : Option TypeMod := TypeMod.all.find? (fun m => modSpell m == s)
+
+def Decl.insertBase (mk : Decl → Decl) : Decl → Decl
+  | .empty => mk .empty
+  | .name n => mk (.name n)
+  | .ptr q i => .ptr q (Decl.insertBase mk i)
+  | .ref i => .ref (Decl.insertBase mk i)
+  | .arr i s => .arr (Decl.insertBase mk i) s
+  | .arrN i => .arrN (Decl.insertBase mk i)
+
+mutual
+/-- `none` = malformed; `some none` = a node kind outside the model -/
+partial def toX : SExp → Option (Option XExpr)
+  | .list (.atom "lit" :: [.atom k, .atom v]) => (toLit k v).map fun l => some (.lit l)
+  | .list (.atom "id" :: parts) => (scopedName parts).map fun n => some (.id n)
+  | .list [.atom "un", .atom op, x] =>
+    match UnOp.ofName? op, toX x with
+    | some op, some (some x) => some (some (.un op x))
+    | some _, some none => some none
+    | _, _ => none
+  | .list [.atom "bin", .atom op, l, r] =>
+    match BinOp.ofName? op, toX l, toX r with
+    | some op, some (some l), some (some r) => some (some (.bin op l r))
+    | some _, some _, some _ => some none
+    | _, _, _ => none
+  | .list [.atom "tern", c, a, b] =>
+    match toX c, toX a, toX b with
+    | some (some c), some (some a), some (some b) => some (some (.tern c a b))
+    | some _, some _, some _ => some none
+    | _, _, _ => none
+  | .list [.atom "sub", o, i] =>
+    match toX o, toX i with
+    | some (some o), some (some i) => some (some (.sub o i))
+    | some _, some _ => some none
+    | _, _ => none
+  | .list (.atom "mem" :: o :: parts) =>
+    match toX o, scopedName parts with
+    | some (some o), some n => some (some (.mem o n))
+    | some none, some _ => some none
+    | _, _ => none
+  | .list [.atom "call", f, .list targs, .list args] =>
+    match toX f, toTArgs targs, toXArgs args with
+    | some (some f), some (some t), some (some a) => some (some (.call f t a))
+    | some _, some _, some _ => some none
+    | _, _, _ => none
+  | .list [.atom "cast", t, x] =>
+    match toTy t, toX x with
+    | some (some t), some (some x) => some (some (.cast t x))
+    | some _, some _ => some none
+    | _, _ => none
+  | .list [.atom "sizeof", a] =>
+    match toEOT a with
+    | some (some a) => some (some (.sizeof a))
+    | some none => some none
+    | none => none
+  | .list (.atom "binit" :: _) => some none
+  | _ => none
+partial def toXArgs : List SExp → Option (Option XArgs)
+  | [] => some (some .nil)
+  | x :: r =>
+    match toX x, toXArgs r with
+    | some (some e), some (some a) => some (some (.cons e a))
+    | some _, some _ => some none
+    | _, _ => none
+partial def toEOT : SExp → Option (Option TArg)
+  | .list [.atom "E", x] => (toX x).map fun o => o.map TArg.e
+  | .list [.atom "T", t] => (toTy t).map fun o => o.map TArg.t
+  | .list [.atom "B", x, t] =>
+    match toX x, toTy t with
+    | some (some x), some (some t) => some (some (.both x t))
+    | some _, some _ => some none
+    | _, _ => none
+  | _ => none
+partial def toTArgs : List SExp → Option (Option TArgs)
+  | [] => some (some .nil)
+  | x :: r =>
+    match toEOT x, toTArgs r with
+    | some (some e), some (some a) => some (some (.cons e a))
+    | some _, some _ => some none
+    | _, _ => none
+/-- `(ty n..)`, `(tyt (n name..) eot..)`, wrapped by `(<modifier> T)`, `(ptr T)`, `(ref T)`, `(arr T [e])` -/
+partial def toTy : SExp → Option (Option TyId)
+  | .list (.atom "ty" :: parts) => (scopedName parts).map fun n => some (.mk [] n .nil .empty)
+  | .list (.atom "tyt" :: .list (.atom "n" :: parts) :: targs) =>
+    match scopedName parts, toTArgs targs with
+    | some n, some (some a) => some (some (.mk [] n a .empty))
+    | some _, some none => some none
+    | _, _ => none
+  | .list [.atom "ptr", t] =>
+    (toTy t).map fun o => o.map fun | .mk m n a d => .mk m n a (Decl.insertBase (fun b => .ptr [] b) d)
+  | .list [.atom "ref", t] =>
+    (toTy t).map fun o => o.map fun | .mk m n a d => .mk m n a (Decl.insertBase (fun b => .ref b) d)
+  | .list [.atom "arr", t] =>
+    (toTy t).map fun o => o.map fun | .mk m n a d => .mk m n a (Decl.insertBase (fun b => .arrN b) d)
+  | .list [.atom "arr", t, e] =>
+    match toTy t, toX e with
+    | some (some (.mk m n a d)), some (some e) => some (some (.mk m n a (Decl.insertBase (fun b => .arr b e) d)))
+    | some _, some _ => some none
+    | _, _ => none
+  | .list [.atom w, t] =>
+    match modOfWrapper w with
+    | some md => (toTy t).map fun o => o.map fun | .mk m n a d => .mk (md :: m) n a d
+    | none => if w == "ptr+" || w == "ref+" || w == "arr+" then some none else none
+  | .list (.atom "arr+" :: _) => some none
+  | .list (.atom "named" :: _) => some none
+  | _ => none
+end
+
+/-- the chain of declarators from the outside in, as `ser_declarator_outer` walks it -/
+def Decl.wrapOuter (base : SExp) (sx : XExpr → SExp) : Decl → SExp
+  | .empty => base
+  | .name n => .list (.atom "named" :: (nameAtoms n ++ [base]))
+  | .ptr q i => Decl.wrapOuter (.list [.atom (if q.isEmpty then "ptr" else "ptr+"), base]) sx i
+  | .ref i => Decl.wrapOuter (.list [.atom "ref", base]) sx i
+  | .arr i s => Decl.wrapOuter (.list [.atom "arr", base, sx s]) sx i
+  | .arrN i => Decl.wrapOuter (.list [.atom "arr", base]) sx i
+
+mutual
+partial def sexpX : XExpr → SExp
+  | .lit l => .list (.atom "lit" :: ((showLit l).splitOn " ").map SExp.atom)
+  | .id n => .list (.atom "id" :: nameAtoms n)
+  | .un op x => .list [.atom "un", .atom op.name, sexpX x]
+  | .bin op l r => .list [.atom "bin", .atom op.name, sexpX l, sexpX r]
+  | .tern c a b => .list [.atom "tern", sexpX c, sexpX a, sexpX b]
+  | .sub o i => .list [.atom "sub", sexpX o, sexpX i]
+  | .mem o n => .list (.atom "mem" :: sexpX o :: nameAtoms n)
+  | .call f t a => .list [.atom "call", sexpX f, .list (sexpTArgs t), .list (sexpXArgs a)]
+  | .cast t x => .list [.atom "cast", sexpTy t, sexpX x]
+  | .sizeof a => .list [.atom "sizeof", sexpEOT a]
+partial def sexpXArgs : XArgs → List SExp
+  | .nil => []
+  | .cons e r => sexpX e :: sexpXArgs r
+/-- canonical as the harness's `ser_eot`: a lone name is `B` whichever way it is tagged -/
+partial def sexpEOT : TArg → SExp
+  | .e (.id n) => .list [.atom "B", sexpX (.id n), .list (.atom "ty" :: nameAtoms n)]
+  | .e x => .list [.atom "E", sexpX x]
+  | .t (.mk [] n .nil .empty) => .list [.atom "B", sexpX (.id n), .list (.atom "ty" :: nameAtoms n)]
+  | .t t => .list [.atom "T", sexpTy t]
+  | .both x t => .list [.atom "B", sexpX x, sexpTy t]
+partial def sexpTArgs : TArgs → List SExp
+  | .nil => []
+  | .cons e r => sexpEOT e :: sexpTArgs r
+partial def sexpTy : TyId → SExp
+  | .mk mods n targs d =>
+    let base : SExp := match targs with
+      | .nil => .list (.atom "ty" :: nameAtoms n)
+      | _ => .list (.atom "tyt" :: .list (.atom "n" :: nameAtoms n) :: sexpTArgs targs)
+    let withMods := mods.foldr (fun m acc => SExp.list [.atom (modSpell m), acc]) base
+    Decl.wrapOuter withMods sexpX d
+end
+
+/-- the harness's `align`: against an original that says `E` / `T`, only that half of a re-read `B` is compared -/
+partial def alignS : SExp → SExp → SExp
+  | .list o, .list n =>
+    match o, n with
+    | [.atom "E", o1], [.atom "B", n1, _] => .list [.atom "E", alignS o1 n1]
+    | [.atom "T", o1], [.atom "B", _, n2] => .list [.atom "T", alignS o1 n2]
+    | _, _ => if o.length == n.length then .list ((o.zip n).map fun (a, b) => alignS a b) else .list n
+  | _, n => n
+
+-- names the tree uses in type position (the harness's `type_names_expr`)
+mutual
+partial def typeNamesX : XExpr → List String
+  | .lit _ => []
+  | .id _ => []
+  | .un _ x => typeNamesX x
+  | .bin _ l r => typeNamesX l ++ typeNamesX r
+  | .tern c a b => typeNamesX c ++ typeNamesX a ++ typeNamesX b
+  | .sub o i => typeNamesX o ++ typeNamesX i
+  | .mem o _ => typeNamesX o
+  | .call f t a => typeNamesX f ++ typeNamesTArgs t ++ typeNamesArgs a
+  | .cast t x => typeNamesTy t ++ typeNamesX x
+  | .sizeof a => typeNamesEOT a
+partial def typeNamesArgs : XArgs → List String
+  | .nil => []
+  | .cons e r => typeNamesX e ++ typeNamesArgs r
+partial def typeNamesEOT : TArg → List String
+  | .e x => typeNamesX x
+  | .t t => typeNamesTy t
+  | .both _ _ => []
+partial def typeNamesTArgs : TArgs → List String
+  | .nil => []
+  | .cons e r => typeNamesEOT e ++ typeNamesTArgs r
+partial def typeNamesTy : TyId → List String
+  | .mk _ n targs _ => n :: typeNamesTArgs targs
+end
+
+/-- an identifier that the lexer reads as a keyword or that `parse_type_modifiers_before` takes as a modifier cannot be
+printed as a name -/
+def pieceTexts : List Piece → List String
+  | [] => []
+  | .t _ s :: r => s :: pieceTexts r
+  | .sp :: r => pieceTexts r
+
+-- embedding of the older tree type, to run both models on the trees they share
+mutual
+def embed : Expr → XExpr
+  | .lit l => .lit l
+  | .id n => .id n
+  | .un op x => .un op (embed x)
+  | .bin op l r => .bin op (embed l) (embed r)
+  | .tern c a b => .tern (embed c) (embed a) (embed b)
+  | .sub o i => .sub (embed o) (embed i)
+  | .mem o n => .mem (embed o) n
+  | .call f a => .call (embed f) .nil (embedArgs a)
+def embedArgs : Args → XArgs
+  | .nil => .nil
+  | .cons e r => .cons (embed e) (embedArgs r)
+end
+
+def gluedIntPeriodAny (pieces : List Piece) : Bool := gluedIntPeriod pieces
+
+/-- answer of the full model to `C09.rt <ctx> <tree>` -/
+def handleRtFull (ctx : String) (e : XExpr) : String :=
+  if !e.supported then "unsupported literal" else
+  let pieces? : Option (List Piece × Terminator) :=
+    if ctx == "ret" || ctx == "stmt" then some (fmtExprX e, .Standard)
+    else if ctx == "init" then some (fmtSubX e initPrec initSide, initTerminator)
+    else if ctx == "arg" then some (fmtSubX e callArgPrec callArgSide, callArgTerminator)
+    else if ctx == "idx" then some (fmtSubX e precArraySubscript subIndexSide, subscriptTerminator)
+    else none
+  match pieces? with
+  | none => "bad-request"
+  | some (pieces, term) =>
+    let ts := toks pieces
+    if gluedIntPeriod pieces || ts.any (fun t => match t with | .lit l => litTooLarge l | _ => false)
+    then render pieces ++ " ==> ERR:lex" else
+    let W := typeNamesX e
+    let back := match xparseAll W term ts with
+      | some (e', []) => (alignS (sexpX e) (sexpX e')).show
+      | _ => "ERR:parse"
+    render pieces ++ " ==> " ++ back
+
+/-- answer of the first model (`Model/Format.lean` + `Model/Parse.lean`), `none` where it does not apply -/
+def handleRtCore (ctx : String) (e : Expr) : Option String :=
+  if !e.supported then some "unsupported literal" else
+  let pieces? : Option (List Piece × Terminator) :=
+    if ctx == "ret" || ctx == "stmt" then some (fmtExpr e, .Standard)
+    else if ctx == "init" then some (fmtInit e, .Sequence)
+    else if ctx == "arg" then some (fmtSub e callArgPrec callArgSide, callArgTerminator)
+    else if ctx == "idx" then some (fmtSub e precArraySubscript subIndexSide, subscriptTerminator)
+    else none
+  match pieces? with
+  | none => some "bad-request"
+  | some (pieces, term) =>
+    let ts := toks pieces
+    if templateShape ts then none else
+    if gluedIntPeriod pieces || ts.any (fun t => match t with | .lit l => litTooLarge l | _ => false)
+    then some (render pieces ++ " ==> ERR:lex") else
+    let back := match parseAll term ts with
+      | some (e', []) => showExpr e'
+      | _ => "ERR:parse"
+    some (render pieces ++ " ==> " ++ back)
+
 def handle (op : String) (args : List String) : String :=
   match op, args with
   | "C09.rt", [ctx, tree] =>
-    match (readSExp (sexpTokens tree)).bind toExpr with
+    match readSExp (sexpTokens tree) with
     | none => "bad-request"
-    | some none => "unsupported node kind"
-    | some (some e) =>
-      if !e.supported then "unsupported literal" else
-      let pieces? : Option (List Piece × Terminator) :=
-        if ctx == "ret" || ctx == "stmt" then some (fmtExpr e, .Standard)
-        else if ctx == "init" then some (fmtInit e, .Sequence)
-        else if ctx == "arg" then some (fmtSub e callArgPrec callArgSide, callArgTerminator)
-        else if ctx == "idx" then some (fmtSub e precArraySubscript subIndexSide, subscriptTerminator)
-        else none
-      match pieces? with
+    | some sx =>
+      match toX sx with
       | none => "bad-request"
-      | some (pieces, term) =>
-        let ts := toks pieces
-        if templateShape ts then "unsupported template-argument attempt" else
-        if gluedIntPeriod pieces || ts.any (fun t => match t with | .lit l => litTooLarge l | _ => false)
-        then render pieces ++ " ==> ERR:lex" else
-        let back := match parseAll term ts with
-          | some (e', []) => showExpr e'
-          | _ => "ERR:parse"
-        render pieces ++ " ==> " ++ back
+      | some none => "unsupported node kind"
+      | some (some e) =>
+        let full := handleRtFull ctx e
+        -- trees of the first model: both models must give the same answer
+        match toExpr sx with
+        | some (some e0) =>
+          match handleRtCore ctx e0 with
+          | some core => if core == full then full else "MODELS-DIFFER core=[" ++ core ++ "] full=[" ++ full ++ "]"
+          | none => full
+        | _ => full
   | _, _ => "unsupported-op"
 
 end RsslVerif.Driver.C09
